@@ -183,15 +183,19 @@ async def _main(sim, sc, out):
             # a cancelled call: either old or new state, but exactly one of them
             old, new = e["uncertain"]
             matching = []
-            for cand in (new, old):
+            cands = [new, old]
+            if old.get("state") == "held" and (old.get("via") in finished_consumers or old.get("via") in finishing):
+                # the interrupted call had no effect and the holder's consumer was finished afterwards
+                cands.append(dict(old, state=old["prev_state"], holder=None))
+            for cand in cands:
                 acc = expected_places(cand)
                 actual = places[0] if len(places) == 1 else ("absent" if not places else None)
                 if actual in acc and (actual in ("absent", "held") or _data_matches(ps[0], cand)):
                     matching.append(cand)
-            if len(matching) == 2 and where != "end" and matching[0]["state"] != matching[1]["state"]:
+            if len(matching) >= 2 and where != "end" and len({m["state"] for m in matching}) > 1:
                 return  # cannot tell yet (e.g. 'held' by its holder vs. prefetched by another consumer)
             if matching:
-                cand = dict(matching[-1] if len(matching) == 2 else matching[0])
+                cand = dict(matching[-1] if len(matching) >= 2 else matching[0])
                 cand.pop("uncertain", None)
                 model[id_] = cand
                 return
@@ -391,8 +395,7 @@ async def _main(sim, sc, out):
                     new.update({"state": "delayed" if due is not None else "waiting", "payload": payload,
                                 "params": params_snapshot(params), "due_us": due})
                     fn = lambda: mb.requeue(key, payload, params)  # noqa: E731
-                if o == "requeue":
-                    e["pending_new"] = new  # the re-queued message may be delivered before requeue() returns
+                e["pending_new"] = new  # the effect may be visible to other consumers before the call returns
                 status, _ = await call(ci, o, id_, fn)
                 stats["terminal"] += 1
                 if model.get(id_) is not e:
